@@ -37,4 +37,4 @@ go test -vet=off -count=1 -run "^($RUNRE)\$" $DPKG 2>&1 | tail -4; r1=${PIPESTAT
 echo "SEED $PROP-$N confirm: demo-without=$r0 (want 0) build=$b tests=$t (want 0) demo-with=$r1 (want !=0)"
 cd /verif
 echo "== the property's check against the change"
-VERIF_WALL=${VERIF_WALL:-} tools/mutant.sh "$D/patch.diff" "$PROP" quick 2>&1 | tail -6 | tee "$D/verdict_quick.txt"
+VERIF_WALL=${VERIF_WALL:-} tools/mutant.sh "$D/patch.diff" "$PROP" quick 2>&1 | grep -v "^KNOWN-FINDING" | tail -6 | tee "$D/verdict_quick.txt"
